@@ -44,12 +44,47 @@ def rnd_ln_arg():
 out = []
 fixed_exp = [D('-4E-34'), D('-3E-34'), D('-2E-34'), D('-4E-35'), D('4E-34'), D('1'), D('-1'), D('0.5'), D('14149'), D('-14140'), D('100'), D('-100'), D('0.4999999999999999999999999999999999'), D('0.5000000000000000000000000000000001')]
 fixed_ln = [D('10'), D('2'), D('0.5'), D('9.999999999999999999999999999999999E+6144'), D('1E-6143'), D('1.000000000000000000000000000000001'), D('0.9999999999999999999999999999999999'), D('2.718281828459045235360287471352662')]
+def rnd_pow_args():
+    k = random.random()
+    La = random.choice([1, 2, 5, 17, 34]); Lb = random.choice([1, 2, 5, 17, 34])
+    da = [random.randrange(10) for _ in range(La)]; da[0] = random.randrange(1, 10)
+    db = [random.randrange(10) for _ in range(Lb)]; db[0] = random.randrange(1, 10)
+    if k < 0.25:      # base next to 1, large exponent
+        m = random.choice([5, 17, 30, 33]); a = D(1) + random.choice([1, -1]) * D((0, (random.randrange(1, 10),), -m))
+        b = D((random.randrange(2), tuple(db), -Lb + m + random.choice([-2, -1, 0, 1])))
+    elif k < 0.6:     # moderate base, moderate exponent
+        a = D((0, tuple(da), -La + random.choice([0, 1, 2, -1, -3])))
+        b = D((random.randrange(2), tuple(db), -Lb + random.choice([0, 1, 2, -1, -5])))
+    elif k < 0.8:     # extreme base, small exponent
+        a = D((0, tuple(da), random.choice([6000, -6000, 3000, -3000, 100, -100]) - La))
+        b = D((random.randrange(2), tuple(db), -Lb + random.choice([0, -1, -2])))
+    else:             # tiny exponent
+        a = D((0, tuple(da), -La + random.choice([0, 1, 5, 40])))
+        b = D((random.randrange(2), tuple(db), -Lb + random.choice([-30, -33, -34, -36, -60])))
+    return a, b
+fixed_pow = [(D('2'), D('0.5')), (D('4'), D('0.5')), (D('10'), D('-0.5')), (D('2'), D('1E+4')), (D('1.000000000000000000000000000000001'), D('1E+33')),
+             (D('0.9999999999999999999999999999999999'), D('1E+34')), (D('9.999999999999999999999999999999999E+6144'), D('0.9999999')), (D('1E-6143'), D('0.5')),
+             (D('3'), D('12345.678')), (D('0.5'), D('20000.5')), (D('2.5'), D('-3.5')), (D('7'), D('1E-40')), (D('123456789'), D('123.456'))]
 args = [("exp", a) for a in fixed_exp] + [("log", a) for a in fixed_ln]
-while len(args) < n_cases:
+n_el = n_cases
+while len(args) < n_el:
     args.append(("exp", rnd_exp_arg()) if random.random() < 0.5 else ("log", rnd_ln_arg()))
+args += [("pow", x) for x in fixed_pow]
+while len(args) < n_el + n_cases // 2:
+    args.append(("pow", rnd_pow_args()))
 for op, a in args:
-    a = ctx.plus(a)
-    if op == "exp":
+    b = None
+    if op == "pow":
+        a, b = ctx.plus(a[0]), ctx.plus(a[1])
+        if a <= 0 or a == 1 or b == 0 or b == b.to_integral_value() and abs(b) < 1000: continue
+        r = ctx.power(a, b)
+        # the reference must itself be right: recompute with 60 digits and require agreement after rounding
+        big = decimal.Context(prec=60, Emin=-999999, Emax=999999, traps=[])
+        if r.is_nan() or r.is_infinite() or ctx.plus(big.power(a, b)) != r: continue
+    else:
+        a = ctx.plus(a)
+    if op == "pow": pass
+    elif op == "exp":
         if abs(a) >= 14100: continue
         r = ctx.exp(a)
     else:
@@ -59,7 +94,13 @@ for op, a in args:
     near = bump(r, random.choice([1, -1])); bad = bump(r, random.choice([3, -3]))
     if near is None or bad is None: continue
     c = canon(r); c34 = int(''.join(map(str, c["c"]))) * 10 ** (34 - len(c["c"]))
+    if op == "pow" and (c34 >= 10 ** 34 - 30 or c34 <= 10 ** 33 + 30): continue     # next to a power of ten the enclosure may straddle it (larger unit)
     if op == "log" and c34 >= 10 ** 34 - 30: continue      # next to a power of ten the acceptor deliberately uses the larger unit
-    out.append({"op": op, "a": canon(a), "good": obs(r), "near": obs(near), "bad": obs(bad)})
-open(path, 'w').write(''.join(json.dumps(r) + '\n' for r in out))
-print(len(out), 'cases ->', path)
+    rec = {"op": op, "a": canon(a), "good": obs(r), "near": obs(near), "bad": obs(bad)}
+    if b is not None: rec["b"] = canon(b)
+    out.append(rec)
+# the exp / ln file is kept as generated before the power cases existed (their random draws come later in the stream now)
+pow_path = path.replace('decexp_cases', 'decpow_cases')
+assert pow_path != path
+open(pow_path, 'w').write(''.join(json.dumps(r) + '\n' for r in out if r["op"] == "pow"))
+print(sum(r["op"] == "pow" for r in out), 'power cases ->', pow_path)
